@@ -381,7 +381,7 @@ def extra_cases(tier, rng):
           forms={"max_value": form}, alt=bool(rng.integers(2)))
     add("forms", base(mv=_pick(rng, mvs_gt1 + [1.0])), forms={"max_value": form}, alt=bool(rng.integers(2)))
   # -- spellings of bits (numpy float32 bits used to overflow 2**max_exp in max() from 2^128 on and were
-  #    kept below; min()/max() take 2**int(exponent) since fix 05a0f48, so every form gets 2..8)
+  #    kept below; min()/max() take 2**int(exponent) since fix 3a8c251, so every form gets 2..8)
   for form in BITS_FORMS:
     for relu in (False, True):
       add("forms", base(relu=relu, bits=int(rng.integers(2, 9))), forms={"bits": form})
